@@ -1160,11 +1160,11 @@ func TestVerifC27(t *testing.T) {
 	}
 	// failsOnSingleLevel: does the same case (ranges counted in grid steps) fail on a one-level timescale in the
 	// current mode of the rule table as well? Used only to name a violation found on a two-level timescale.
-	failsOnSingleLevel := func(c c27Case) bool {
+	failsOnSingleLevel := func(c c27Case, mode int) bool {
 		n := c.node.withRangesDividedBy(c.data.scale.grid)
 		one := *c27Single
 		one.tail = c.data.scale.tail // the same timestamps after the last slot are compared
-		r := c27Run(&one, c.data.series, n.text(), c.data.slots, c27ModeAsIs)
+		r := c27Run(&one, c.data.series, n.text(), c.data.slots, mode)
 		atomic.AddInt64(&execs, 1)
 		cls, _ := c27Judge(&one, n, c.data.series, &r)
 		return cls != ""
@@ -1226,7 +1226,7 @@ func TestVerifC27(t *testing.T) {
 			default:
 				sig += cls
 			}
-			if c.data.scale.coarse != 0 && !failsOnSingleLevel(c) {
+			if c.data.scale.coarse != 0 && !failsOnSingleLevel(c, c27ModeAsIs) {
 				sig += ":only-on-two-level-timescale"
 			}
 			outcome(sig)
@@ -1265,7 +1265,7 @@ func TestVerifC27(t *testing.T) {
 					if bad.kind == "overtime" {
 						sig = "C27:over-time-differs:" + bad.fn + ":" + c27MissingClass(c.data.series)
 					}
-					if c.data.scale.coarse != 0 && !failsOnSingleLevel(c) {
+					if c.data.scale.coarse != 0 && !failsOnSingleLevel(c, c27ModeAsIs) {
 						sig += ":only-on-two-level-timescale"
 					}
 					outcome(sig)
@@ -1282,9 +1282,17 @@ func TestVerifC27(t *testing.T) {
 			atomic.AddInt64(&execs, 1)
 			rcls, _ := c27Judge(c.data.scale, c.node, c.data.series, &rr)
 			tpl := c.node.template()
-			if c.data.scale.coarse != 0 && !failsOnSingleLevel(c) {
-				// the same expression (ranges in grid steps) on the same series is right on a one-level timescale
-				tpl += c27OnlyTwoLevel + c.data.scale.rangeClass(c.node.firstRange())
+			if c.data.scale.coarse != 0 {
+				// is the same expression (ranges in grid steps) on the same series right on a one-level timescale? Compared
+				// in the mode that separates it from the known digest defect: with the reduction's `what` handed to
+				// storage when that does not repair the two-level run, as it is otherwise
+				m := c27ModeAsIs
+				if rcls != "" {
+					m = c27ModeRepaired
+				}
+				if !failsOnSingleLevel(c, m) {
+					tpl += c27OnlyTwoLevel + c.data.scale.rangeClass(c.node.firstRange())
+				}
 			}
 			redMu.Lock()
 			if redFails[tpl] == nil {
